@@ -38,9 +38,10 @@
   and an arbitrary state, `pert` is NOT idempotent (random search: tasks 0..3, links
   0→3 SS, 1→2 FS, 1→3 FF, 2→1 FS, 3→2 FF, `rem = [2, 1/2, -1/2, -2]`, `eft = [5, 4, 6, 6]`,
   time 3: `eft 3` is 4 after one application and 7/2 after two).  That state is not reachable
-  (task 2 never starts), and no counterexample to the full statement of C15 is known: 3000
-  random acyclic FF/SF models, 400 with back links, and the FF model `ffM` below (which does
-  overshoot behind a closed FF gate and has an FS successor) all satisfy it at every `k`.
+  (task 2 never starts), and no counterexample to the full statement of C15 is known: 300
+  random acyclic FF/SF models, 3400 with back links (5 tasks, 2-3 workers, every pause point),
+  and the FF model `ffM` below (which does overshoot behind a closed FF gate and has an FS
+  successor) all satisfy it at every `k`.
 -/
 import PDesy.Lemmas.Idem
 import PDesy.Lemmas.Logs
@@ -316,6 +317,32 @@ def ffM : Model where
   wp := fun _ => {}
   comp := fun _ => { tasks := [0, 1] }
 
+/-- a CYCLIC link graph (1 ⇄ 2 by FS, 3 → 2 by FF) on which `update_PERT_data` is not
+idempotent at the (unreachable) state `cycL` -/
+def cycM : Model where
+  nT := 4
+  nW := 0
+  nF := 0
+  nTeam := 0
+  nWp := 0
+  nC := 0
+  task := fun t =>
+    match t with
+    | 0 => { name := 0, outputs := [(3, .ss)] }
+    | 1 => { name := 1, inputs := [(2, .fs)], outputs := [(2, .fs), (3, .ff)] }
+    | 2 => { name := 2, inputs := [(1, .fs), (3, .ff)], outputs := [(1, .fs)] }
+    | _ => { name := 3, inputs := [(0, .ss), (1, .ff)], outputs := [(2, .ff)] }
+  worker := fun _ => {}
+  fac := fun _ => {}
+  team := fun _ => {}
+  wp := fun _ => {}
+  comp := fun _ => {}
+
+def cycL : Live :=
+  { Live.empty with
+    rem := fun t => match t with | 0 => 2 | 1 => 1/2 | 2 => -1/2 | _ => -2
+    eft := fun t => match t with | 0 => 5 | 1 => 4 | 2 => 6 | _ => 6 }
+
 end C15Ex
 
 open C15Ex
@@ -372,6 +399,12 @@ example : (simulate ffM { maxTime := 20 } St.fresh).logs.tRem 1 = [-1/2, -3/2, -
 (evaluation only: this model is outside `C15_partial`) -/
 example : ∀ k ∈ List.range 7,
     resumed ffM { absence := [2] } k 20 = straight ffM { absence := [2] } 20 := by
+  decide +kernel
+
+/-- the hypothesis of `C15_of_pert_idem` cannot be had for every model: on the cyclic graph
+`cycM`, with negative remaining work, the fuel of the forward pass runs out between the
+stale read of `eft 1` and its correction (`eft 3` is 4 after one application, 7/2 after two) -/
+example : (pert cycM 3 cycL).eft 3 = 4 ∧ (pert cycM 3 (pert cycM 3 cycL)).eft 3 = 7/2 := by
   decide +kernel
 
 end PDesy
